@@ -220,11 +220,53 @@ def nontrivial(c):
     return any(not ch.isspace() for ch in text_of(c["f"]))
 
 
+def mixed_join_positions(c):
+    """(line index, position) of every joining space that replaces a whitespace run with MIXED formatting: there the
+    statement fixes only 'never an attribute none of it had', so the space's exact attributes are not the property's
+    business (they are compared at representation level). Positions come from the reference wrap, not from the code."""
+    if c["columns"] < 1 or c["op"] == "linesplit_str":
+        return []
+    out = []
+    for k, l in enumerate(reference_wrap(wire.cells_of_chunks(c["f"]), c["columns"])):
+        for j, x in enumerate(l):
+            if isinstance(x, Join) and len({a for _, a in x.gap}) > 1:
+                out.append((k, j))
+    return out
+
+
+def masked_cells_list(reply, mask):
+    r = canon_cells_list(reply)
+    if isinstance(r, tuple) and r and r[0] == "cellslist":
+        lines = [list(l) for l in r[1]]
+        for k, j in mask:
+            if k < len(lines) and j < len(lines[k]) and lines[k][j][0] == " ":
+                lines[k][j] = (" ", "attributes-of-a-mixed-gap")
+        return ("cellslist", tuple(tuple(l) for l in lines))
+    return r
+
+
+def tie_lines(ctx, name, cases, masks, impl_fn):
+    """property level: exact per-character cells where every inter-word gap used is uniformly formatted; for cases with a
+    mixed gap the joining space's attributes are masked on both sides (the oracle still judges them against the statement)
+    and the exact comparison is kept at representation level"""
+    uniform = [c for c, m in zip(cases, masks) if not m]
+    mixed = [c for c, m in zip(cases, masks) if m]
+    mm = [m for m in masks if m]
+    ctx.tie(name, uniform, line, impl_fn, canon_cells_list, canon_cells_list)
+    if mixed:
+        ia, ib = iter(mm), iter(mm)
+        ctx.tie(name, mixed, line, impl_fn, lambda r: masked_cells_list(r, next(ia)), lambda r: masked_cells_list(r, next(ib)))
+        if next(ia, None) is not None or next(ib, None) is not None:
+            ctx.note("internal: mask iterators of %s not exhausted" % name)
+        ctx.tie(name + "/mixed-gap-exact", mixed, line, impl_fn, canon_cells_list, canon_cells_list, level="representation")
+    ctx.dist["cases-with-a-mixed-gap-joined"] += len(mixed)
+
+
 def _work(strings):
     out = []
     for s in strings:
         for c in cases_for_string(s):
-            out.append((impl(c), oracle(c)))
+            out.append((impl(c), oracle(c), mixed_join_positions(c)))
     return out
 
 
@@ -241,14 +283,15 @@ def check(ctx):
     else:
         res = _work(strings)
     pre = {id(c): r[0] for c, r in zip(cases, res)}
-    ctx.tie("C16/linesplit", cases, line, lambda c: pre[id(c)], canon_cells_list, canon_cells_list)
-    for c, (_, w) in zip(cases, res):
+    tie_lines(ctx, "C16/linesplit", cases, [r[2] for r in res], lambda c: pre[id(c)])
+    for c, (_, w, _m) in zip(cases, res):
         ctx.count(c, nontrivial=nontrivial(c), tag="columns=%d" % c["columns"])
         if w:
             ctx.violation(w, c, footprint(c, w))
     extra = extra_cases(ctx)
     # property level: per-character cells of every line for columns >= 1 (str and FmtStr arguments alike)
-    ctx.tie("C16/extras", [c for c in extra if c["columns"] >= 1], line, impl, canon_cells_list, canon_cells_list)
+    inq = [c for c in extra if c["columns"] >= 1]
+    tie_lines(ctx, "C16/extras", inq, [mixed_join_positions(c) for c in inq], impl)
     # representation level: columns < 1 is outside the quantifier (today a ZeroDivisionError; which exception, if any, is
     # not the property's business)
     ctx.tie("C16/outside-quantifier", [c for c in extra if c["columns"] < 1], line, impl, canon_cells_list, canon_cells_list,
@@ -269,7 +312,7 @@ def search(ctx):
     with multiprocessing.Pool(min(16, multiprocessing.cpu_count())) as pool:
         for si, part in enumerate(pool.imap(_work, shards)):
             cs = [c for s in shards[si] for c in cases_for_string(s)]
-            for c, (_, w) in zip(cs, part):
+            for c, (_, w, _m) in zip(cs, part):
                 ctx.count(c, tag="search")
                 if w:
                     ctx.violation(w, c, footprint(c, w))
